@@ -310,7 +310,9 @@ class Contract:
 
 
 class Frame:
-    def __init__(self, raw=(), fields=(), err=False, ghost=(), all_fields=False, all_raw=False, havoc_if=None):
+    def __init__(self, raw=(), fields=(), err=False, ghost=(), all_fields=False, all_raw=False, havoc_if=None,
+                 all_raw_if=None):
+        self.all_raw_if = all_raw_if  # Bool: when true any byte may change, when false only the `raw` regions
         self.havoc_if = havoc_if      # Bool: when true the callee may change everything (outside the proved scope)
         self.raw = list(raw)          # [(addr, nbytes-term)]
         self.fields = list(fields)    # [heap keys] or [(rec, field)]
@@ -321,7 +323,11 @@ class Frame:
 
 
 class LoopSpec:
-    def __init__(self, invariant=None, unroll=None, raw=None, summarise=False, assume_exit=False):
+    def __init__(self, invariant=None, unroll=None, raw=None, summarise=False, assume_exit=False, readonly=False):
+        self.readonly = readonly      # the cycle writes nothing (no heap, byte, error-indicator or ghost change on any
+        #                               path back to its head): nothing but the assigned locals is made arbitrary at
+        #                               the head, and every back edge carries the obligation that its heaps ARE the
+        #                               head's heaps (so, by induction, the entry heaps)
         self.assume_exit = assume_exit  # summarised loops only: the invariant (whose preservation is the business of the
         #                               loop-body contract that restates it in pre() and post()) and the negated loop
         #                               condition are assumed for the otherwise arbitrary state after the loop
@@ -358,6 +364,12 @@ class Ctx:
     def global_value(self, st, name, bits=64):
         """value of a scalar C global variable in state st"""
         return st.gvar('g:' + name, z3.BitVecSort(bits))
+
+    def off_stack(self, addr, n):
+        """[addr, addr+n) does not overlap this frame's stack locals (declared so far)"""
+        n = n if z3.is_bv(n) else BV(n, 64)
+        return z3.And(*[z3.Or(z3.ULE(addr + n, sa), z3.UGE(addr, sa + BV((ssize + 15) // 16 * 16, 64)))
+                        for sa, ssize in self.ex.stack_syms]) if self.ex.stack_syms else z3.BoolVal(True)
 
     def valid(self, addr, n):
         """[addr, addr+n) is mapped memory (no wrap-around).  Regions named by a function's
@@ -586,6 +598,30 @@ class Exec:
         memo[key] = memo[a0.get_id()] = r
         return r
 
+    def _read_outside(self, arr, addr, memo):
+        key = arr.get_id()
+        if key in memo:
+            return memo[key]
+        a0 = arr
+        while True:
+            k = arr.decl().kind() if z3.is_app(arr) else None
+            if k == z3.Z3_OP_STORE:
+                if self._stack_split(arr.arg(1)) is not None:
+                    arr = arr.arg(0)
+                    continue
+                if arr.arg(1).eq(addr):
+                    r = arr.arg(2)
+                    break
+            elif k == z3.Z3_OP_ITE:
+                r1 = self._read_outside(arr.arg(1), addr, memo)
+                r2 = self._read_outside(arr.arg(2), addr, memo)
+                r = r1 if r1.eq(r2) else z3.If(arr.arg(0), r1, r2)
+                break
+            r = z3.Select(arr, addr)
+            break
+        memo[key] = memo[a0.get_id()] = r
+        return r
+
     def load_raw(self, st, addr, nbytes):
         bs = []
         for k in range(nbytes):
@@ -594,11 +630,12 @@ class Exec:
             if sp is not None:
                 bs.append(self._read_byte(st.raw, a, sp, {}))
                 continue
+            if self.stack_syms and self._outside_frame(addr, nbytes) >= len(self.stack_syms):
+                # a read proved to lie outside this frame's locals: stores into the locals are skipped, merged
+                # heaps are read branch-wise, a store at the syntactically same address is a hit
+                bs.append(self._read_outside(st.raw, a, {}))
+                continue
             arr = st.raw
-            if z3.is_app(arr) and arr.decl().kind() == z3.Z3_OP_STORE and self._stack_split(arr.arg(1)) is not None \
-                    and self._outside_frame(addr, nbytes) >= len(self.stack_syms):
-                while z3.is_app(arr) and arr.decl().kind() == z3.Z3_OP_STORE and self._stack_split(arr.arg(1)) is not None:
-                    arr = arr.arg(0)
             bs.append(z3.Select(arr, a))
         if nbytes > 1:
             # the bytes of one stored value, in order: the value itself
@@ -997,6 +1034,8 @@ class Exec:
         if not fr.all_raw and not _same(rst.raw, self.raw0):
             a = z3.BitVec('frame_a', 64)
             conds = [z3.Not(in_range(a, lo, n if z3.is_bv(n) else BV(n, 64))) for lo, n in fr.raw]
+            if fr.all_raw_if is not None:
+                conds.append(z3.Not(fr.all_raw_if))
             for sa, ssize in self.stack_syms:            # stack locals of this frame are dead on return
                 conds.append(z3.Not(in_range(a, sa, BV((ssize + 15) // 16 * 16, 64))))
             for fa, fn_ in self.fresh_regions:           # memory allocated by this call did not exist before
@@ -1076,6 +1115,8 @@ class Exec:
                 entry = self.back_labels[label]
                 c_end = Ctx(self, self.args, self.st0, st)
                 c_end.entry = entry
+                if spec.readonly:
+                    self.same_heaps_ob(st, entry, line_of(n), 'label %s' % label)
                 for lab, g, extra in _norm(spec.invariant(c_end, st)):
                     self.ob('loop-preserved', line_of(n), 'label %s:%s' % (label, lab), st, g, hyps_extra=extra or ())
                 return None
@@ -1109,6 +1150,35 @@ class Exec:
         self.ev(n, st, want=False)
         return st
 
+    def same_heaps_ob(self, st, head, line, what):
+        """obligations of a read-only cycle at a back edge: every heap, the bytes, the error indicator and the
+        ghosts are those of the cycle's head (identical terms need no solver)"""
+        diff = []
+        if st.dh is not head.dh or st.dg is not head.dg:
+            diff.append(('a call that may change everything lies on the way back', z3.BoolVal(False)))
+        if not _same(st.raw, head.raw):
+            a = z3.BitVec('cyc_a', 64)
+            diff.append(('byte heap', z3.Select(st.raw, a) == z3.Select(head.raw, a)))
+        for key in set(st.fh) | set(head.fh):
+            x, y = st.fh.get(key, None), head.fh.get(key, None)
+            x = x if x is not None else st.dh(key)
+            y = y if y is not None else head.dh(key)
+            if not _same(x, y):
+                a = z3.BitVec('cyc_p', 64)
+                diff.append(('field heap ' + key, z3.Select(x, a) == z3.Select(y, a)))
+        if not _same(st.err, head.err):
+            diff.append(('error indicator', st.err == head.err))
+        for key in set(st.ghost) | set(head.ghost):
+            x = st.ghost.get(key)
+            y = head.ghost.get(key)
+            srt = (x if x is not None else y).sort()
+            x = x if x is not None else st.dg(key, srt)
+            y = y if y is not None else head.dg(key, srt)
+            if not _same(x, y):
+                diff.append(('ghost ' + key, x == y))
+        for lab, g in diff:
+            self.ob('loop-preserved', line, '%s: read-only cycle: %s unchanged' % (what, lab), st, g)
+
     def enter_back_label(self, n, name, st):
         """a label that later `goto`s jump back to is a loop head: its invariant (contract.labels[name]) holds on
         entry (obligation), every local assigned anywhere in the function and -- if the function calls anything
@@ -1125,14 +1195,15 @@ class Exec:
         for did in acc['vars']:
             if did in h.env:
                 h.env[did] = self.fresh('label_%s_%s' % (name, self.decl_name(did)), h.env[did].sort())
-        h.havoc('label_%s' % name, raw=acc['raw'] or acc['calls'], fields=acc['fields'] or acc['calls'],
-                ghost=acc['calls'],
-                err=self.fresh('label_%s_err' % name, B64) if (acc['err'] or acc['calls']) else None)
+        if not spec.readonly:
+            h.havoc('label_%s' % name, raw=acc['raw'] or acc['calls'], fields=acc['fields'] or acc['calls'],
+                    ghost=acc['calls'],
+                    err=self.fresh('label_%s_err' % name, B64) if (acc['err'] or acc['calls']) else None)
         c_h = Ctx(self, self.args, self.st0, h)
         c_h.entry = st
         for lab, g, extra in _norm(spec.invariant(c_h, h)):
             h.assume(g)
-        self.back_labels[name] = st
+        self.back_labels[name] = h.copy() if spec.readonly else st
         return h
 
     def label_name(self, declid):
@@ -1373,20 +1444,22 @@ class Exec:
         for did in acc['vars']:
             if did in h.env:
                 h.env[did] = self.fresh('loop%d_%s' % (ordinal, self.decl_name(did)), h.env[did].sort())
-        if acc['raw'] or acc['calls']:
-            newraw = self.fresh('loop%d_raw' % ordinal, z3.ArraySort(B64, B8))
-            regions = spec.raw(Ctx(self, self.args, self.st0, st), st) if (spec.raw and not acc['calls']) else None
-            if regions is not None:
-                # the loop writes only inside the regions its contract names (checked: memory-safety obligations
-                # of the body / the function's frame); every other byte is as at loop entry
-                a = z3.BitVec('a!loop', 64)
-                inside = z3.Or(*[in_range(a, lo, nn if z3.is_bv(nn) else BV(nn, 64)) for lo, nn in regions])
-                h.raw = z3.Lambda([a], z3.If(inside, z3.Select(newraw, a), z3.Select(st.raw, a)))
-                self.loop_regions.append((ordinal, regions))
-            else:
-                h.raw = newraw
-        h.havoc('loop%d' % ordinal, raw=False, fields=acc['fields'] or acc['calls'], ghost=acc['calls'],
-                err=self.fresh('loop%d_err' % ordinal, B64) if (acc['err'] or acc['calls']) else None)
+        if not spec.readonly:
+            if acc['raw'] or acc['calls']:
+                newraw = self.fresh('loop%d_raw' % ordinal, z3.ArraySort(B64, B8))
+                regions = spec.raw(Ctx(self, self.args, self.st0, st), st) if (spec.raw and not acc['calls']) else None
+                if regions is not None:
+                    # the loop writes only inside the regions its contract names (checked: memory-safety obligations
+                    # of the body / the function's frame); every other byte is as at loop entry
+                    a = z3.BitVec('a!loop', 64)
+                    inside = z3.Or(*[in_range(a, lo, nn if z3.is_bv(nn) else BV(nn, 64)) for lo, nn in regions])
+                    h.raw = z3.Lambda([a], z3.If(inside, z3.Select(newraw, a), z3.Select(st.raw, a)))
+                    self.loop_regions.append((ordinal, regions))
+                else:
+                    h.raw = newraw
+            h.havoc('loop%d' % ordinal, raw=False, fields=acc['fields'] or acc['calls'], ghost=acc['calls'],
+                    err=self.fresh('loop%d_err' % ordinal, B64) if (acc['err'] or acc['calls']) else None)
+        head = h.copy()
         if spec.summarise:
             self.summarised_loops.append((self.fname, ordinal, line))
             if spec.assume_exit:
@@ -1429,6 +1502,8 @@ class Exec:
             c_end.entry = st
             for label, g, extra in _norm(spec.invariant(c_end, cur)):
                 self.ob('loop-preserved', line, 'loop%d:%s' % (ordinal, label), cur, g, hyps_extra=extra or ())
+            if spec.readonly:
+                self.same_heaps_ob(cur, head, line, 'loop%d' % ordinal)
         return merge_states(exits)
 
     def decl_name(self, did):
@@ -1954,11 +2029,12 @@ class Exec:
             res = self.fresh('ret_' + name, sort_of(rt))
         fr = con.frame(c) if not con.pure else Frame()
         pre_call = st.copy() if fr.havoc_if is not None else None
-        if fr.raw or fr.all_raw:
+        if fr.raw or fr.all_raw or fr.all_raw_if is not None:
             newraw = self.fresh('raw_after_' + name, z3.ArraySort(B64, B8))
             if not fr.all_raw:
                 a = z3.BitVec('a!bound', 64)
-                inside = z3.Or(*[in_range(a, lo, nn if z3.is_bv(nn) else BV(nn, 64)) for lo, nn in fr.raw])
+                inside = z3.Or(*([in_range(a, lo, nn if z3.is_bv(nn) else BV(nn, 64)) for lo, nn in fr.raw] +
+                                 ([fr.all_raw_if] if fr.all_raw_if is not None else [])))
                 st.raw = z3.Lambda([a], z3.If(inside, z3.Select(newraw, a), z3.Select(st.raw, a)))
             else:
                 st.raw = newraw
@@ -2071,6 +2147,15 @@ class Registry:
         self.field_alias = {}
         self._ghosts = {}
         self.assumed = {}       # name -> description of the assumed contract (external functions)
+
+    def fork(self):
+        """a registry that starts as a copy of this one: contracts/models replaced in the copy do not affect the
+        checks that use the original"""
+        r = Registry()
+        for k, v in self.__dict__.items():
+            setattr(r, k, v.copy() if isinstance(v, (dict, set)) else v)
+        r._ghosts = self._ghosts          # ghost function symbols are shared (same names = same functions)
+        return r
 
     def ghost(self, name, *sorts):
         if name not in self._ghosts:
